@@ -9,6 +9,7 @@ import (
 	"strings"
 	"sync"
 	"testing"
+	"testing/synctest"
 	"time"
 
 	"github.com/mgtv-tech/redis-GunYu/config"
@@ -53,6 +54,9 @@ type c15tFault struct {
 	Kind   string `json:"fate"`   // "error-reply": the store answers errors, the connection survives
 	//                               "cut": the connection dies before the call reaches the store and the instance cannot reconnect
 	//                               "reply-lost": the call is executed, its reply is lost with the connection, then as "cut"
+	//                               "delayed-reply": the call is executed at once, its reply arrives only after the caller's context deadline
+	//                               (renew interval) has passed, on a connection that stays open; with length g > 0 the store answers errors
+	//                               to every call from the g-th call after it on
 	Start int `json:"start_call"`      // the victim's n-th election call (campaign/renew/resign attempts, 1-based) is the first one hit
 	Len   int `json:"length"`          // error-reply: number of consecutive calls hit; cut/reply-lost: seconds without the store; 0 = until the end
 	Shard int `json:"shard,omitempty"` // real-run family only: which source shard's lease calls are hit (0-based)
@@ -63,21 +67,45 @@ type c15tInst struct {
 	active    bool  // syncing as leader: campaign said leader and clusterTicker has not returned
 	lastOK    int64 // ms: last time the instance was told "leader" (campaign) or a renewal succeeded
 	following bool
-	renewErr  int64 // ms: time of the most recent Renew call if it returned an error and no Renew succeeded since (-1 none)
-	calls     int   // election calls that reached (or were about to reach) the store
-	cutUntil  int64 // ms: the instance cannot reach the store before this time (-1: not cut; maxInt: for good)
+	renewErr  int64       // ms: time of the most recent Renew call if it returned an error and no Renew succeeded since (-1 none)
+	calls     int         // election calls that reached (or were about to reach) the store
+	cutUntil  int64       // ms: the instance cannot reach the store before this time (-1: not cut; maxInt: for good)
+	grants    int         // campaign/renew requests of this instance the store executed and granted
+	unproven  []c15tClaim // successes the instance was told that still have to be matched with a grant
 }
 
-// c15tElection passes every call to the real election and notes what Renew returned.
+// c15tClaim: the instance was told "leader"/"renewed" by a call that began when it had `grants` grants.
+type c15tClaim struct {
+	what   string
+	grants int
+	at     int64
+}
+
+// c15tElection passes every call to the real election and notes what it returned.
 type c15tElection struct {
 	cluster.Election
 	onRenew func(err error)
+	begin   func() int                // grants so far
+	told    func(what string, g0 int) // the call that began at g0 grants reported success
 }
 
 func (e *c15tElection) Renew(ctx context.Context) error {
+	g0 := e.begin()
 	err := e.Election.Renew(ctx)
 	e.onRenew(err)
+	if err == nil {
+		e.told("renewed", g0)
+	}
 	return err
+}
+
+func (e *c15tElection) Campaign(ctx context.Context) (cluster.ClusterRole, error) {
+	g0 := e.begin()
+	role, err := e.Election.Campaign(ctx)
+	if err == nil && role == cluster.RoleLeader {
+		e.told("leader", g0)
+	}
+	return role, err
 }
 
 const c15tForever = int64(1) << 60
@@ -146,6 +174,7 @@ func c15tExecN(t *testing.T, scn c15tScenario, ch *mc.Chooser) (mc.Result, [2]in
 			}
 		}
 		// ---- the explorer decides the fate of every election request
+		heldConn, heldDue := 0, int64(-1) // a reply the store is sitting on, and when it lets it go
 		nreq := 0
 		ending := false
 		plan := srv.PlanRef()
@@ -180,6 +209,12 @@ func c15tExecN(t *testing.T, scn c15tScenario, ch *mc.Chooser) (mc.Result, [2]in
 						if n >= f.Start && (f.Len == 0 || n < f.Start+f.Len) {
 							c = 1
 						}
+					case "delayed-reply":
+						if n == f.Start {
+							c = 4
+						} else if f.Len > 0 && n >= f.Start+f.Len {
+							c = 1
+						}
 					case "cut", "reply-lost":
 						if n == f.Start {
 							c = 3
@@ -197,9 +232,12 @@ func c15tExecN(t *testing.T, scn c15tScenario, ch *mc.Chooser) (mc.Result, [2]in
 			}
 			events++
 			mu.Lock()
-			trace = append(trace, fmt.Sprintf("t=%dms i%d %s -> %s", ms(), who+1, kind, []string{"delivered", "error reply (not executed)", "executed, reply lost, connection dead", "never reaches the store, connection dead"}[c]))
+			trace = append(trace, fmt.Sprintf("t=%dms i%d %s -> %s", ms(), who+1, kind, []string{"delivered", "error reply (not executed)", "executed, reply lost, connection dead", "never reaches the store, connection dead", "executed, reply delayed beyond the caller's deadline"}[c]))
 			mu.Unlock()
 			seq := r.Seq
+			if c == 4 {
+				plan.Hold = true // only this reply: the client sends nothing else on the connection before it has read it
+			}
 			if c == 1 || c == 3 {
 				if plan.FailAt == nil {
 					plan.FailAt = map[int]string{}
@@ -214,6 +252,29 @@ func c15tExecN(t *testing.T, scn c15tScenario, ch *mc.Chooser) (mc.Result, [2]in
 				if c == 2 || c == 3 {
 					srv.KillConnLocked(r2.Conn, true)
 					return
+				}
+				if c == 4 {
+					plan.Hold = false
+					mu.Lock()
+					heldConn, heldDue = r2.Conn, ms()+cc.LeaseRenewInterval.Milliseconds()+1
+					mu.Unlock()
+					// the reply arrives 1 ms after the caller's deadline, at an instant at which nobody else acts
+					time.AfterFunc(cc.LeaseRenewInterval+time.Millisecond, func() {
+						mu.Lock()
+						rel := 0
+						if heldDue >= 0 {
+							rel, heldDue = heldConn, -1
+						}
+						mu.Unlock()
+						if rel != 0 {
+							srv.Release(rel, 0)
+						}
+					})
+				}
+				if isCampaign && r2.Executed && !r2.Failed && strings.HasPrefix(r2.Reply, ":1") {
+					mu.Lock()
+					inst[who].grants++
+					mu.Unlock()
 				}
 				// a delivered ":1" of the campaign script is the only way Campaign answers leader /
 				// Renew returns nil: its time is the last success the instance knows of
@@ -254,6 +315,19 @@ func c15tExecN(t *testing.T, scn c15tScenario, ch *mc.Chooser) (mc.Result, [2]in
 				mu.Unlock()
 				cl = c
 				el = &c15tElection{Election: cl.NewElection(runWait.Context(), c15Key, in.id), onRenew: func(err error) {
+					// A caller that honours its deadline has given up by now while the store still sits on its reply: the
+					// reply arrives right now, just after the deadline. (The retry that follows would otherwise block on
+					// the connection's sync.Mutex, which is not durably blocking: the bubble's clock would stop for good.)
+					mu.Lock()
+					rel := 0
+					if err != nil && heldDue >= 0 && connOwner[heldConn] == i {
+						rel, heldDue = heldConn, -1
+					}
+					mu.Unlock()
+					if rel != 0 {
+						srv.Release(rel, 0)
+						synctest.Wait()
+					}
 					mu.Lock()
 					if err != nil {
 						in.renewErr = ms()
@@ -261,6 +335,14 @@ func c15tExecN(t *testing.T, scn c15tScenario, ch *mc.Chooser) (mc.Result, [2]in
 					} else {
 						in.renewErr = -1
 					}
+					mu.Unlock()
+				}, begin: func() int {
+					mu.Lock()
+					defer mu.Unlock()
+					return in.grants
+				}, told: func(what string, g0 int) {
+					mu.Lock()
+					in.unproven = append(in.unproven, c15tClaim{what, g0, ms()})
 					mu.Unlock()
 				}}
 				return true
@@ -336,6 +418,16 @@ func c15tExecN(t *testing.T, scn c15tScenario, ch *mc.Chooser) (mc.Result, [2]in
 		time.Sleep(125 * time.Millisecond)
 		for time.Since(start) < horizon {
 			mu.Lock()
+			// whoever was told "leader" / "renewed" must have been granted a request of THAT call by the store
+			for i, in := range inst {
+				for _, cl := range in.unproven {
+					if cl.at < ms() && in.grants <= cl.grants {
+						viol("an instance was told "+cl.what+" by a call none of whose requests the store granted (the answer belongs to another call)", "C15:ticker:told-success-without-grant",
+							map[string]interface{}{"instance": i + 1, "told_at_ms": cl.at, "what": cl.what})
+					}
+				}
+				in.unproven = nil
+			}
 			check("sample")
 			mu.Unlock()
 			time.Sleep(250 * time.Millisecond)
@@ -343,11 +435,12 @@ func c15tExecN(t *testing.T, scn c15tScenario, ch *mc.Chooser) (mc.Result, [2]in
 		mu.Lock()
 		ending = true
 		mu.Unlock()
+		srv.ReleaseAll()
 		runWait.Close(nil)
 		wg.Wait()
 		calls = [2]int{inst[0].calls, inst[1].calls}
 		// the gravest clause that was broken is the verdict; the others are listed with it
-		for _, sig := range []string{"C15:ticker:two-active-leaders", "C15:ticker:leader-past-lease", "C15:ticker:failed-renewal-not-reported"} {
+		for _, sig := range []string{"C15:ticker:two-active-leaders", "C15:ticker:leader-past-lease", "C15:ticker:told-success-without-grant", "C15:ticker:failed-renewal-not-reported"} {
 			if r, ok := found[sig]; ok && res == nil {
 				var all []string
 				for k := range found {
@@ -430,7 +523,9 @@ func c15tFaults(calls [2]int, tier string) []c15tFault {
 	var out []c15tFault
 	runs := []int{1, 2, 3, 4, 5, 6, 8, 0}
 	secs := []int{1, 2, 4, 8, 0}
+	late := []int{0, 3, 5} // delayed reply alone / followed by error replies from the g-th later call on
 	if tier == "thorough" {
+		late = []int{0, 2, 3, 4, 5, 6, 8}
 		runs = []int{1, 2, 3, 4, 5, 6, 7, 8, 9, 10, 12, 0}
 		secs = []int{1, 2, 3, 4, 6, 8, 12, 0}
 	}
@@ -443,6 +538,9 @@ func c15tFaults(calls [2]int, tier string) []c15tFault {
 				for _, l := range secs {
 					out = append(out, c15tFault{Victim: v, Kind: k, Start: st, Len: l})
 				}
+			}
+			for _, g := range late {
+				out = append(out, c15tFault{Victim: v, Kind: "delayed-reply", Start: st, Len: g})
 			}
 		}
 	}
